@@ -276,6 +276,17 @@ def r19c(model, ctx):
     # with M = port.metadata[0] for one-bit ports or the element enumerate(port.metadata) gives for `bit`
     from ..engine.astutil import parent_map, dominating_conditions
     fp = model.func_view(f"{PLAT}::Platform.iter_port_constraints_bits")
+    # block-scoped copy propagation of `x = port.metadata[0]` (the name may be re-used as a loop variable in another branch)
+    import copy as _copy
+    from ..engine.symx import subst as _subst
+    fp = _copy.deepcopy(fp)
+    for blk in [n for n in ast.walk(fp) if isinstance(n, ast.If)]:
+        for body in (blk.body, blk.orelse):
+            for k, st_ in enumerate(body):
+                if isinstance(st_, ast.Assign) and len(st_.targets) == 1 and isinstance(st_.targets[0], ast.Name) and \
+                        unparse(st_.value) == "port.metadata[0]":
+                    env_ = {st_.targets[0].id: st_.value}
+                    body[k + 1:] = [_subst(x, env_) for x in body[k + 1:]]
     pmx = parent_map(fp)
     ys = [y for y in ast.walk(fp) if isinstance(y, ast.Yield)]
     need(ys, "iter_port_constraints_bits: no yield found")
@@ -291,7 +302,8 @@ def r19c(model, ctx):
         conds = dominating_conditions(pmx, pmx.get(y), fp) if good else []
         ctext = {(unparse(t), pol) for t, pol in conds}
         if good and M == "port.metadata[0]":
-            good = unparse(N) == "name" and ("len(port) == 1", True) in ctext and ("port.metadata[0] is None", False) in ctext
+            good = unparse(N) == "name" and ("len(port) == 1", True) in ctext and \
+                (("port.metadata[0] is None", False) in ctext or ("port.metadata[0] is not None", True) in ctext)
         elif good:
             loop = pmx.get(y)
             while loop is not None and not (isinstance(loop, ast.For) and unparse(loop.iter) == "enumerate(port.metadata)"):
@@ -305,7 +317,7 @@ def r19c(model, ctx):
                 both = isinstance(N, ast.IfExp) and unparse(N.test) == "len(port) == 1" and unparse(N.body) == "name" and unparse(N.orelse) == idx
                 both = both or (isinstance(N, ast.IfExp) and unparse(N.test) in ("len(port) != 1", "len(port) > 1") and
                                 unparse(N.orelse) == "name" and unparse(N.body) == idx)
-                good = (multi or both) and (f"{M} is None", False) in ctext
+                good = (multi or both) and ((f"{M} is None", False) in ctext or (f"{M} is not None", True) in ctext)
         ok = ok and good
     ctx.check(ok, R, "iter_port_constraints_bits", "bit i of a port is paired with metadata[i] (its own pin)",
               "iter_port_constraints_bits must pair bit i of every design port with metadata[i].name (and the 1-bit port with "
